@@ -94,7 +94,12 @@ def numpy_steps(M, rec, rng, n_nets, draws=3, opts_prob=0.0, on_case=None, regim
                 for o in ("positive_next_speed", "positive_next_density", "positive_next_queue"):
                     if rng.random() < 0.5:
                         opts[o] = True
-            ic = drive.np_init(built, vals, rng.choice(scalar_shapes))
+            int_dtype = rng.random() < 0.12
+            if int_dtype:  # the same kind of state written with whole numbers, passed as integer arrays
+                vals = drive.integerise(vals)
+                rec.count("numpy_cases_with_integer_arrays")
+            ic = drive.np_init(built, vals, rng.choice(scalar_shapes), int_dtype=int_dtype,
+                               shuffle_keys=(rng if rng.random() < 0.3 else None))
             rec.count("numpy_cases")
             case = {"desc": desc, "vals": vals, "pars": pars, "opts": opts, "engine": "numpy",
                     "regime": regime, "shape": shp}
